@@ -1,4 +1,134 @@
 import Firefly.Model.Vt
 import Firefly.Spec.Term
+import Firefly.Proof.Vt
+/-!
+# C17 — Terminal emulator state always matches the reference terminal model
+
+Statement (properties.jsonl): for every byte stream written to a terminal attached to a console
+of any size, the terminal's contents, scrollback and cursor equal those of a simple reference
+terminal: carriage return moves to column one, line feed to the start of the next line, backspace
+moves one column left and blanks that cell (nothing in column one), tab writes tab-width spaces,
+and every other byte is stored at the cursor in the default colours and advances it, wrapping to
+the next line after the last column.  A line feed on the last viewport line first moves the
+viewport down through the scrollback and, once that is used up, scrolls the viewport's lines up
+by one and blanks the last line; the cursor always stays inside the viewport and no write ever
+touches memory outside the terminal's buffer.
+
+Quantifier: every console geometry (including 1-column and 1-row consoles), scrollback length
+(including 0), tab width (including 0), byte stream, and interleaving of writes with cursor moves
+and state changes.
+
+`Firefly.Vt` is the model of `vt.go` (checked slice accesses: an out-of-range index is `.panic`),
+`Firefly.Term.Term` the reference terminal (`Spec/Term.lean`), `absVT` reads a `VT` state as a
+reference terminal (cursor, viewport origin, and the data buffer cut into `h+sb` lines of `w`
+cells).  The domain hypothesis `Dom` is the one of the property (at least one row and column)
+plus the explicit "the buffer size fits in 32 bits".
+-/
 namespace Firefly.C17
+open Firefly.Vt Firefly.Term Firefly.VtProof
+
+/-- the theorems' domain: a console with at least one column and one row, and a buffer size
+`w·(h+sb)·3` that does not overflow the `uint32` arithmetic of `AttachTo` -/
+def Dom (w h sb : Nat) : Prop := 1 ≤ w ∧ 1 ≤ h ∧ w * (h + sb) * 3 < 4294967296
+
+instance (w h sb : Nat) : Decidable (Dom w h sb) := by unfold Dom; infer_instance
+
+/-- `NewVT(tab, sb)`, `AttachTo` a `w × h` console with default colours `fg/bg`, then any history of
+bytes written, cursor moves and state changes -/
+def history (w h sb tab : Nat) (fg bg : UInt8) (ops : List Op) : Res :=
+  (attachTo (newVT tab sb) w h fg bg).bind (run · ops)
+
+/-- **attach_blank** — attaching yields the empty reference terminal. -/
+theorem attach_blank {w h sb : Nat} (tab : Nat) (fg bg : UInt8) (hd : Dom w h sb) :
+    ∃ t, attachTo (newVT tab sb) w h fg bg = .ok t ∧ Inv t ∧ absVT t = Term.new w h sb tab fg bg := by
+  obtain ⟨t, a, i, r, _⟩ := attach_spec tab fg bg hd.1 hd.2.1 hd.2.2
+  exact ⟨t, a, i, r⟩
+
+/-- **refines_step** — from any state satisfying the invariant `Inv` (`Proof/Vt.lean`: geometry,
+cursor inside the viewport, `dataOffset` = the cursor's cell, lines below the viewport blank), one
+operation does not panic, re-establishes the invariant, and commutes with the abstraction:
+`absVT (step s op) = refStep (absVT s) op`. -/
+theorem refines_step {t : VT} (i : Inv t) (op : Op) :
+    ∃ t', step t op = .ok t' ∧ Inv t' ∧ absVT t' = (absVT t).step op :=
+  step_spec i op
+
+/-- **refines** — for every geometry in the domain, every scrollback, tab width, default colours
+and every history: the terminal does not panic and its state, read as a reference terminal,
+equals the reference terminal run on the same history. -/
+theorem refines {w h sb : Nat} (tab : Nat) (fg bg : UInt8) (hd : Dom w h sb) (ops : List Op) :
+    ∃ t, history w h sb tab fg bg ops = .ok t ∧ Inv t ∧
+      absVT t = (Term.new w h sb tab fg bg).run ops := by
+  obtain ⟨t0, a, i, r⟩ := attach_blank tab fg bg hd
+  obtain ⟨t, a', i', r'⟩ := run_spec ops i
+  exact ⟨t, by simp [history, a, Res.bind, a'], i', by rw [r', r]⟩
+
+/-- **in_bounds** — no history makes the terminal index outside its buffer (the model's checked
+accesses never yield `.panic`). -/
+theorem in_bounds {w h sb : Nat} (tab : Nat) (fg bg : UInt8) (hd : Dom w h sb) (ops : List Op) :
+    (history w h sb tab fg bg ops).isPanic = false := by
+  obtain ⟨t, a, _, _⟩ := refines tab fg bg hd ops
+  rw [a]; rfl
+
+/-- **cursor_in_viewport** — after every history the cursor is inside the viewport and the
+viewport inside the buffer. -/
+theorem cursor_in_viewport {w h sb : Nat} (tab : Nat) (fg bg : UInt8) (hd : Dom w h sb) (ops : List Op)
+    {t : VT} (ht : history w h sb tab fg bg ops = .ok t) :
+    1 ≤ t.cursorX ∧ t.cursorX ≤ w ∧ 1 ≤ t.cursorY ∧ t.cursorY ≤ h ∧ t.viewportY + h ≤ h + sb := by
+  obtain ⟨t', a, i, r⟩ := refines tab fg bg hd ops
+  rw [a] at ht; cases ht
+  have c := run_cfg ops (Term.new w h sb tab fg bg)
+  rw [← r] at c
+  have hw : t.viewportWidth = w := c.w
+  have hh : t.viewportHeight = h := c.h
+  have hs : t.scrollback = sb := c.sb
+  have := i.cx1; have := i.cxw; have := i.cy1; have := i.cyh; have := i.vy
+  omega
+
+/-- **below_viewport_blank** — the lines below the viewport are blank in the default colours
+after every history (this is what makes "move the viewport down" show a blank last line). -/
+theorem below_viewport_blank {w h sb : Nat} (tab : Nat) (fg bg : UInt8) (hd : Dom w h sb) (ops : List Op)
+    {t : VT} (ht : history w h sb tab fg bg ops = .ok t) :
+    (absVT t).grid.drop (t.viewportY + h) =
+      List.replicate (sb - t.viewportY) (List.replicate w ⟨32, fg, bg⟩) := by
+  obtain ⟨t', a, i, r⟩ := refines tab fg bg hd ops
+  rw [a] at ht; cases ht
+  have c := run_cfg ops (Term.new w h sb tab fg bg)
+  rw [← r] at c
+  have hw : t.viewportWidth = w := c.w
+  have hh : t.viewportHeight = h := c.h
+  have hs : t.scrollback = sb := c.sb
+  have hf : t.defaultFg = fg := c.fg
+  have hb : t.defaultBg = bg := c.bg
+  have := below_blank i.toGeo
+  rw [hw, hh, hs, hf, hb] at this
+  exact this
+
+/-- **viewport_matches** — what the user sees (the viewport of the model state) is the viewport of
+the reference terminal. -/
+theorem viewport_matches {w h sb : Nat} (tab : Nat) (fg bg : UInt8) (hd : Dom w h sb) (ops : List Op)
+    {t : VT} (ht : history w h sb tab fg bg ops = .ok t) :
+    (absVT t).viewport = ((Term.new w h sb tab fg bg).run ops).viewport := by
+  obtain ⟨t', a, _, r⟩ := refines tab fg bg hd ops
+  rw [a] at ht; cases ht
+  rw [r]
+
+/-! ## Non-vacuity and witnesses for the hypotheses -/
+
+example : Dom 80 25 Firefly.Gen.C17.defaultScrollback := by decide
+example : Dom 1 1 0 := by decide
+example : Dom 100 40 80 := by decide
+example : ¬ Dom 65536 65536 0 := by decide
+
+/-- a concrete history on the smallest console, executed by the kernel: write "ab", line feed -/
+example : ∃ t, history 1 1 0 4 7 0 [.byte 97, .byte 98, .byte 10] = .ok t ∧ t.cursorX = 1 ∧ t.cursorY = 1 := by
+  obtain ⟨t, a, _, _⟩ := refines (w := 1) (h := 1) (sb := 0) 4 7 0 (by decide) [.byte 97, .byte 98, .byte 10]
+  have c := cursor_in_viewport (w := 1) (h := 1) (sb := 0) 4 7 0 (by decide) _ a
+  exact ⟨t, a, by omega, by omega⟩
+
+/-- the hypothesis `1 ≤ w` is needed: on a zero-column console the first character written indexes
+an empty buffer -/
+theorem zero_width_panics : (history 0 1 0 4 7 0 [.byte 97]).isPanic = true := by
+  simp [history, attachTo, newVT, u32, blankData, Res.bind, run, step, writeByte, doWrite, emit,
+    store3, store, Res.isPanic]
+
 end Firefly.C17
